@@ -26,7 +26,7 @@ R_ALL = ["R1-comment", "R2-blank-lines", "R3-indent", "R4-spacing", "R5-crlf", "
 REQUIRED = {**{r: 10 for r in R_ALL}, "isolated:R5-crlf": 2, "isolated:R10-bom": 2, "isolated:R8-semicolons": 2, "isolated:R6-wrap": 2, "isolated:R7-comma": 2,
             "isolated:R1-comment": 2, "isolated:R11-multifile": 2, "isolated:R9-end-added": 2,
             "crlf+wrapped-params": 5, "bom-on-later-file": 3, "bom-on-first-file": 3, "multifile-end-in-every-file": 3, "multifile-no-trailing-newline": 3, "multifile-end-line-variants": 5, "multifile-crlf-end-line": 3,
-            "text-closes-with-word-ending-in:n": 3, "text-closes-with-word-ending-in:d": 2, "text-closes-with-word-ending-in:E": 2, "string-ends-in-a-comment-without-newline": 5, "single-file-no-trailing-newline": 5, "variant-parsed-twice": 20, "master-file-variant": 2, "corpus-base": 20, "generated-base": 20, "snapshot-with-chains": 20}
+            "text-closes-with-word-ending-in:n": 3, "text-closes-with-word-ending-in:d": 2, "text-closes-with-word-ending-in:E": 2, "string-ends-in-a-comment-without-newline": 5, "single-file-no-trailing-newline": 5, "single-file-larger-than-a-megabyte": 1, "variant-parsed-twice": 20, "master-file-variant": 2, "corpus-base": 20, "generated-base": 20, "snapshot-with-chains": 20}
 ASSUMPTIONS = ["parameter-list wrapping only on non-empty lists; file splits only between top-level statements; string inputs end with a newline",
                "warnings are recorded, not compared; absent parameter list '' == []"]
 DEFAULT_CFG = None
@@ -73,6 +73,9 @@ def parse_variant(variant, um):
         return snapshot.make_parser(None, paths, um)
     finally:
         pass
+
+
+_big_done = []
 
 
 def make_variant(ctx, text, items, um, force=None):
@@ -130,6 +133,13 @@ def make_variant(ctx, text, items, um, force=None):
         if force is None and rng.random() < 0.3 and new.endswith("\n") and not new.endswith("\n\n"):
             new = new[:-2] if new.endswith("\r\n") else new[:-1]       # the (single) file does not end in a line end
             ctx.hit("single-file-no-trailing-newline")
+        if force is None and (rng.random() < 0.04 or (ctx.shard == 0 and not _big_done)):
+            # a long file: more than a megabyte of comment lines in front of the statements (file size is not part of the meaning)
+            _big_done.append(1)
+            nlc = "\r\n" if "\r\n" in new else "\n"
+            new = "".join(f"# {i:06d} generated documentation header, kept by every release of this file ...........{nlc}" for i in range(13500)) + new
+            applied.add("R1-comment")
+            ctx.hit("single-file-larger-than-a-megabyte")
         bom = pack == "file-bom"
         if bom:
             applied.add("R10-bom")
